@@ -71,6 +71,15 @@ func GenerateMatrix(r *lp.Rng, index int) *Design {
 			put.HTTP.Cookies = append(put.HTTP.Cookies, mp)
 		}
 	}
+	if loc == "body" {
+		// collections with default values (every mode: optional with default, required with default)
+		tags := &Att{Type: &Type{Array: &Att{Type: &Type{Prim: "String"}}}, Default: []any{"new", "unsorted"}, HasDef: true}
+		labels := &Att{Type: &Type{MapKey: &Att{Type: &Type{Prim: "String"}}, MapElem: &Att{Type: &Type{Prim: "String"}}}, Default: map[string]any{"tier": "free"}, HasDef: true}
+		payload.Type.Object = append(payload.Type.Object, &Field{Name: "tags", Att: tags}, &Field{Name: "labels", Att: labels})
+		if modeOff == 1 {
+			payload.Required = append(payload.Required, "tags")
+		}
+	}
 	put.Payload = payload
 	s.Methods = append(s.Methods, put)
 
@@ -84,10 +93,15 @@ func GenerateMatrix(r *lp.Rng, index int) *Design {
 			where = "body"
 		}
 		if where == "cookie" && prim != "String" {
-			where = "body" // response cookies carry strings
+			// response cookies carry strings; the other attributes travel in the body, or — every second
+			// time — in headers, so that one response has headers and cookies
+			where = "body"
+			if (index/3)%2 == 1 && prim != "Bytes" {
+				where = "header"
+			}
 		}
 		name := "r_" + strings.ToLower(prim)
-		a := &Att{Type: &Type{Prim: prim}}
+		a := att(prim, k+4)
 		mode(res, name, a, k)
 		res.Type.Object = append(res.Type.Object, &Field{Name: name, Att: a})
 		switch where {
@@ -100,7 +114,7 @@ func GenerateMatrix(r *lp.Rng, index int) *Design {
 	if rloc == "cookie" {
 		// two more strings so that the three modes occur in cookies too
 		for k, name := range []string{"r_sid", "r_tok"} {
-			a := &Att{Type: &Type{Prim: "String"}}
+			a := att("String", k)
 			mode(res, name, a, 10+k) // the two modes r_string (k = 9) does not have
 			res.Type.Object = append(res.Type.Object, &Field{Name: name, Att: a})
 			resp.Cookies = append(resp.Cookies, Mapped{Attr: name, Wire: "RC-" + name})
